@@ -19,7 +19,7 @@ CLAIMED = {
   'C16': dict(engine='envs', design='5/C16',
      technique='deterministic simulation: seeded reset keys and adversarial action schedules (uniform, bang-bang, held, chatter, zero-then-bang) with auto-reset boundaries inside the history; per-step on-device safety invariants; cross-process replay digests and duplicate-member determinism',
      text='All 11 registered physics environments on every native backend they accept are driven through training.wrap for 200-1000 wrapped steps in batches of 8-128; after every step all observations, rewards, done flags, q, qd, link poses and velocities must be finite and link quaternions unit; shapes match the declared sizes; done=0 at reset; the same genome re-executed in another process and a duplicated member must give bit-identical results. Sampled exploration, float32 (the precision the bundled envs run in).',
-     note='Trusted: XLA CPU with pinned flags. mjx backend not exercised. Unit-quaternion tolerance 2e-6 in float32.'),
+     note='Trusted: XLA CPU with pinned flags. mjx backend not exercised. Unit-quaternion tolerance 2e-6 in float32. swimmer/generalized cannot be stepped on the pinned jax (jp.clip a_min keyword): listed in known_findings.json, printed as KNOWN-FINDING on every run.'),
   'C04': dict(engine='c04', design='5/C04',
      technique='deterministic simulation: seeded worlds (generated free-rooted forests, two- and three-body collision scenes, rest scenes) stepped as vmapped lanes with seeded control schedules and kick/spin/displace disturbances injected through pipeline.init; conservation invariant evaluated after every step',
      text='Generated models are loaded with the real mjcf loader and stepped by the real spring and positional pipelines for 1-200 steps under seeded control schedules (random, bang-bang, held, beyond range, unstable gains) and re-initialisation kicks; after every step total linear momentum must have changed by exactly M g dt (1e-9 relative in float64). Rest scenes: all three pipelines, q inside limits, no gravity/control/contact, must stay at rest. Sampled exploration; known defect (per-link impulse averaging with >= 3 bodies in contact) is listed in known_findings.json.',
